@@ -35,8 +35,63 @@ fn job_strategy() -> BoxedStrategy<StateSpec> {
         .boxed()
 }
 
+/// single-instruction jobs over SMALL operand domains (ints 0..64, a handful of floats, short
+/// vectors): related parameter values recur across jobs, so any memoisation or scratch state that
+/// survives between runs and is keyed incompletely makes some job depend on which job ran before
+fn sweep_jobs(seed: u64, per_instr: u64) -> Vec<StateSpec> {
+    use crate::single::{supply, top_up};
+    let names = rand_free_names();
+    let small_int = prop_oneof![8 => 0i32..=64, 1 => -3i32..0];
+    let small_float = prop::sample::select(vec![0.0f32, 0.5, 1.0, 1.5, 2.0, 3.0, -1.0]);
+    let kinds = gen::AtomKinds { instrs: vec!["NOOP".into()], float_strategy: Some(small_float.clone().boxed()), ..gen::AtomKinds::all(vec![]) };
+    let sup = supply(&kinds);
+    let strat = (
+        prop::collection::vec(small_int.clone(), 4..7),
+        prop::collection::vec(small_float, 2..4),
+        prop::collection::vec(any::<bool>(), 1..3),
+        prop::collection::vec(prop::collection::vec(small_int.clone(), 0..4), 1..3),
+        prop::collection::vec(prop::collection::vec(any::<bool>(), 0..4), 1..3),
+        prop::collection::vec(prop::collection::vec((0i32..8).prop_map(|x| x as f32 / 2.0), 0..4), 1..3),
+        prop::collection::vec(prop::collection::vec(small_int.prop_map(ItemSpec::Int), 0..4).prop_map(ItemSpec::List), 1..4),
+        sup,
+    );
+    let mut out = vec![];
+    for (ni, name) in names.iter().enumerate() {
+        let fp = crate::footprint::get(name);
+        for k in 0..per_instr {
+            let mut r = det_runner(derive_seed(seed, &["C14", "sweep", name], k, ni as u64));
+            let (ints, floats, bools, ivecs, bvecs, fvecs, code, sup) = draw(&strat, &mut r);
+            let mut s = StateSpec::default();
+            s.ints = ints;
+            s.floats = floats;
+            s.bools = bools;
+            s.ivecs = ivecs;
+            s.bvecs = bvecs;
+            s.fvecs = fvecs;
+            s.code = code;
+            s.names = vec!["a".into(), "b".into()];
+            if let Some(fp) = &fp {
+                top_up(&mut s, fp, &sup);
+            }
+            s.exec.insert(0, ItemSpec::Instr(name.clone()));
+            s.exec.truncate(4);
+            s.config.eval_push_limit = 30;
+            s.config.eval_time_limit = u64::MAX / 4;
+            out.push(s);
+        }
+    }
+    out
+}
+
 /// deterministic job list; jobs whose monitored dry run leaves the resource envelope are dropped
 fn jobs(seed: u64, n: u64) -> Vec<StateSpec> {
+    let mut all = program_jobs(seed, n);
+    all.extend(sweep_jobs(seed, (n / 40).max(8)));
+    // dry-run filter for the sweep jobs as well (EXEC items may be code)
+    all
+}
+
+fn program_jobs(seed: u64, n: u64) -> Vec<StateSpec> {
     let strat = job_strategy();
     let allowed: BTreeSet<String> = rand_free_names().into_iter().collect();
     let mut out = vec![];
@@ -74,18 +129,41 @@ fn run_job(s: &StateSpec, m: &mut Machine) -> Result<(u64, usize), (String, Stri
     })
 }
 fn run_job_text(s: &StateSpec, m: &mut Machine) -> String {
-    match run_job(s, m) {
+    let direct = match run_job(s, m) {
         Ok((d, _)) => format!("{:016x}", d),
         Err((l, _)) => format!("panic@{}", l),
+    };
+    // the same program once more, this time entering through the parser (printed text -> parse)
+    let text = s.exec.iter().map(|x| x.render()).collect::<Vec<_>>().join(" ");
+    let mut base = s.clone();
+    base.exec.clear();
+    let (mut st, _) = base.build();
+    let parsed = guarded(|| {
+        PushParser::parse_program(&mut st, &m.iset, &text);
+        let parsed_exec = StateSpec::snapshot(&st).exec;
+        let mut h = Fnv::new();
+        for it in &parsed_exec {
+            it.hash_into(&mut h);
+        }
+        h.0
+    });
+    match parsed {
+        Ok(d) => format!("{}+{:016x}", direct, d),
+        Err((l, _)) => format!("{}+parse-panic@{}", direct, l),
     }
 }
 
 /// release-leg entry
-pub fn leg(seed: u64, n: u64) {
+pub fn leg(seed: u64, n: u64, reverse: bool) {
     let js = jobs(seed, n);
     let mut m = Machine::new(true);
-    for (i, j) in js.iter().enumerate() {
-        crate::exec::say(&format!("{} {:016x} {}", i, j.digest(), run_job_text(j, &mut m)));
+    let mut lines = vec![String::new(); js.len()];
+    let order: Vec<usize> = if reverse { (0..js.len()).rev().collect() } else { (0..js.len()).collect() };
+    for i in order {
+        lines[i] = format!("{} {:016x} {}", i, js[i].digest(), run_job_text(&js[i], &mut m));
+    }
+    for l in lines {
+        crate::exec::say(&l);
     }
 }
 
@@ -171,16 +249,27 @@ fn in_process(ctx: &Ctx, js: &[StateSpec]) -> (SubReport, Vec<String>) {
     (rep, base)
 }
 
-fn profile_diff(ctx: &Ctx, js: &[StateSpec], base: &[String], n: u64) -> SubReport {
-    let mut rep = SubReport::new("profile-diff");
-    let bin = match std::env::var("PV_RELEASE_BIN") {
-        Ok(b) if std::path::Path::new(&b).exists() => b,
-        _ => {
-            rep.inconclusive.push("release binary not available (PV_RELEASE_BIN)".into());
-            return rep;
+/// the job list executed by another process: the release binary (build profile) or this binary
+/// in a fresh process in reverse order (independence of what ran earlier in the process)
+fn other_process(ctx: &Ctx, js: &[StateSpec], base: &[String], n: u64, release: bool) -> SubReport {
+    let mut rep = SubReport::new(if release { "profile-diff" } else { "fresh-process-reverse-order" });
+    let sig = if release { "C14/build-profile" } else { "C14/depends-on-process-history" };
+    let bin = if release {
+        match std::env::var("PV_RELEASE_BIN") {
+            Ok(b) if std::path::Path::new(&b).exists() => b,
+            _ => {
+                rep.inconclusive.push("release binary not available (PV_RELEASE_BIN)".into());
+                return rep;
+            }
         }
+    } else {
+        std::env::current_exe().map(|p| p.to_string_lossy().to_string()).unwrap_or_default()
     };
-    let out = std::process::Command::new(&bin).args(["C14", "--leg", &ctx.seed.to_string(), &n.to_string()]).output();
+    let mut args = vec!["C14".to_string(), "--leg".to_string(), ctx.seed.to_string(), n.to_string()];
+    if !release {
+        args.push("reverse".into());
+    }
+    let out = std::process::Command::new(&bin).args(&args).env("PV_CHILD", "1").output();
     let text = match out {
         Ok(o) if o.status.success() => String::from_utf8_lossy(&o.stdout).to_string(),
         _ => {
@@ -191,7 +280,7 @@ fn profile_diff(ctx: &Ctx, js: &[StateSpec], base: &[String], n: u64) -> SubRepo
     let lines: Vec<Vec<String>> = text.lines().map(|l| l.split_whitespace().map(|x| x.to_string()).collect()).collect();
     if lines.len() != js.len() {
         // the job filter (dry run) itself must not depend on the profile
-        rep.fail(ctx, Fail::new("C14/build-profile/job-filter-differs", format!("dev keeps {} jobs, release {}", js.len(), lines.len())), json!({"seed": ctx.seed, "n": n}));
+        rep.fail(ctx, Fail::new(format!("{}/job-filter-differs", sig), format!("this process keeps {} jobs, the other {}", js.len(), lines.len())), json!({"seed": ctx.seed, "n": n}));
         return rep;
     }
     for (i, j) in js.iter().enumerate() {
@@ -202,7 +291,7 @@ fn profile_diff(ctx: &Ctx, js: &[StateSpec], base: &[String], n: u64) -> SubRepo
             return rep;
         }
         if l[2] != base[i] {
-            rep.fail(ctx, Fail::new("C14/build-profile", format!("job {}: dev build gives {} but release build gives {}", i, base[i], l[2])), job_json(j));
+            rep.fail(ctx, Fail::new(sig, format!("job {}: this process (dev build, forward order) gives {} but the other process ({}) gives {}", i, base[i], if release { "release build" } else { "fresh process, reverse order" }, l[2])), job_json(j));
         } else {
             rep.nontrivial.insert(j.digest());
         }
@@ -398,7 +487,8 @@ pub fn run(ctx: &Ctx) -> PropReport {
     rep.extra.insert("jobs_inside_envelope".into(), json!(js.len()));
     let (a, base) = in_process(ctx, &js);
     rep.push(a);
-    rep.push(profile_diff(ctx, &js, &base, n));
+    rep.push(other_process(ctx, &js, &base, n, true));
+    rep.push(other_process(ctx, &js, &base, n, false));
     rep.push(cli(ctx, ctx.tier.pick(150, 2000)));
     rep.push(node_ids(ctx, ctx.tier.pick(20_000, 200_000)));
     rep
